@@ -34,7 +34,7 @@ CHECKS = {
            "oracle: no panic outside the known classes (and only where the model predicts it), compile errors only for large bounds. Partial: stack exhaustion / "
            "memory are outside any Gallina model.",
     'C06': "Proved: a glob that builds has ordered, non-degenerate bounds and no adjacent boundaries at every node (the level-order enumeration is proved to reach "
-           "every descendant; the fuel of both breadth-first traversals of the rule checker is proved adequate for every tree); no concatenation the parser produces holds two adjacent zero-or-more wildcards; and the boundary rule over expansions is sound for every glob without repetitions, however the alternations nest (C06_built_globs_without_repetitions_have_no_adjacent_boundaries: the breadth-first branch check characterised declaratively - every reachable item is processed without error - and an induction that carries the inherited outer context through nested alternations; parsed trees have the shape the branch rules assume; the same for adjacent zero-or-more wildcards: C06_built_globs_without_repetitions_have_no_adjacent_zero_or_more_wildcards); and the other direction for the boundary rule - no false rejection: an AdjacentBoundary verdict on an expression without repetitions always has a witness expansion (C06_adjacent_boundary_verdicts_have_a_witness: every item the branch check reaches is embedded between real neighbours). Tie: Ok/Err + rule kind vs the model "
+           "every descendant; the fuel of both breadth-first traversals of the rule checker is proved adequate for every tree); no concatenation the parser produces holds two adjacent zero-or-more wildcards; and the boundary rule over expansions is sound for every glob without repetitions, however the alternations nest (C06_built_globs_without_repetitions_have_no_adjacent_boundaries: the breadth-first branch check characterised declaratively - every reachable item is processed without error - and an induction that carries the inherited outer context through nested alternations; parsed trees have the shape the branch rules assume; the same for adjacent zero-or-more wildcards: C06_built_globs_without_repetitions_have_no_adjacent_zero_or_more_wildcards); and the other direction for the boundary rule - no false rejection: an AdjacentBoundary verdict on an expression without repetitions always has a witness expansion (C06_adjacent_boundary_verdicts_have_a_witness: every item the branch check reaches is embedded between real neighbours; C06_adjacent_zero_or_more_verdicts_have_a_witness likewise). Tie: Ok/Err + rule kind vs the model "
            "of the repaired checker. Oracle: Glob::new(e).is_ok() <=> an independent re-statement of the documented rules over expansions of the parse tree (two named "
            "known classes).",
     'C07': "Proved (all inputs): at the level of the documented language an alternation is the union of its branches and a repetition is its body written out a "
